@@ -174,6 +174,30 @@ func c39Counters(c *core.Ctx) {
 			}
 		})
 	}
+	// ... and the mirror image: helpers every return of which has set Staked = false on a record parameter
+	// (an extracted "mark as unstaked"): a call of one is the clearing of the flag at its call site
+	setsFalse := map[*ssa.Function]bool{}
+	for _, fn := range c.P.FuncsOfPkg(pkg) {
+		clears := func(in ssa.Instruction) bool {
+			if !storeOf(in, false) {
+				return false
+			}
+			_, isParam := in.(*ssa.Store).Addr.(*ssa.FieldAddr).X.(*ssa.Parameter)
+			return isParam
+		}
+		any := false
+		core.Instrs(fn, func(in ssa.Instruction) {
+			if clears(in) {
+				any = true
+			}
+		})
+		if !any {
+			continue
+		}
+		if esc, _ := (core.PathQ{Fn: fn, Via: clears, Target: core.AnyReturn}).Escape(); esc == nil {
+			setsFalse[fn] = true
+		}
+	}
 	n := 0
 	for _, fn := range c.P.FuncsOfPkg(pkg) {
 		if fn.Signature.Recv() == nil || !strings.HasSuffix(fn.Signature.Recv().Type().String(), ".stakingSC") || setsTrue[fn] {
@@ -200,7 +224,13 @@ func c39Counters(c *core.Ctx) {
 				k++
 				n++
 				c.Analysed(fname(fn))
-				esc, path := core.PathQ{Fn: fn, From: in, Via: func(x ssa.Instruction) bool { return storeOf(x, false) }, Target: okReturn}.Escape()
+				esc, path := core.PathQ{Fn: fn, From: in, Via: func(x ssa.Instruction) bool {
+					if storeOf(x, false) {
+						return true
+					}
+					cc := core.CallOf(x)
+					return cc != nil && cc.StaticCallee() != nil && setsFalse[cc.StaticCallee()]
+				}, Target: okReturn}.Escape()
 				c.Check(esc == nil, "C39/counter-moves-with-staked-flag", fmt.Sprintf("%s/uncounted#%d", fname(fn), k), in.Pos(),
 					"after removeFromStakedNodes the key is marked not staked before every success return",
 					"removeFromStakedNodes is not followed by `Staked = false` on a path to a success return ("+c.P.PathString(path)+"): the counter drops while the key stays marked as staked")
